@@ -443,6 +443,8 @@ struct FnVisitor<'c> {
 	tried: Vec<(usize, usize)>,
 	scopes: Vec<(usize, usize, String, usize)>,
 	closure_depth: usize,
+	/// L20 iter_mut: per enclosing loop, the write-back text to put before a `continue` (None: loop without write-back)
+	writeback: Vec<Option<String>>,
 }
 
 impl<'c> FnVisitor<'c> {
@@ -804,7 +806,7 @@ impl<'ast, 'c> Visit<'ast> for FnVisitor<'c> {
 				], "L20");
 				self.push(we, we, vec![Part::Text(" }".to_string())], "L20");
 				self.push(we, we, vec![Part::Text(";".to_string())], "A2");
-				syn::visit::visit_expr_for_loop(self, fl);
+				{ self.writeback.push(None); syn::visit::visit_expr_for_loop(self, fl); self.writeback.pop(); }
 				return;
 			}
 			if lc.collect {
@@ -830,7 +832,7 @@ impl<'ast, 'c> Visit<'ast> for FnVisitor<'c> {
 				], "L20");
 				self.push(we, we, vec![Part::Text(" }".to_string())], "L20");
 				self.push(we, we, vec![Part::Text(";".to_string())], "A2");
-				syn::visit::visit_expr_for_loop(self, fl);
+				{ self.writeback.push(None); syn::visit::visit_expr_for_loop(self, fl); self.writeback.pop(); }
 				return;
 			}
 			// `for PAT in &EXPR` (EXPR evaluates to a Vec): `let vx_vN = EXPR; { let mut vx_iN = 0; while vx_iN < vx_vN.len() { let PAT = &vx_vN[vx_iN]; … } }`
@@ -857,8 +859,44 @@ impl<'ast, 'c> Visit<'ast> for FnVisitor<'c> {
 				], "L20");
 				self.push(we, we, vec![Part::Text(" }".to_string())], "L20");
 				self.push(we, we, vec![Part::Text(";".to_string())], "A2");
-				syn::visit::visit_expr_for_loop(self, fl);
+				{ self.writeback.push(None); syn::visit::visit_expr_for_loop(self, fl); self.writeback.pop(); }
 				return;
+			}
+			// `for PAT in X.iter_mut()` (X a Vec named by a path, PAT an identifier): the element is copied out
+			// (`let mut PAT = vf_clone(&X[i]);`), the body works on the copy (field access / method calls read the same for an owned
+			// value and a `&mut`), and the copy is written back (`X.set(i, PAT)`) at the end of the body and before every `continue`
+			// of this loop. Early exits (`return`, `?`) do not write back: the element is unspecified after an error.
+			if let syn::Expr::MethodCall(mc) = &*fl.expr {
+				if mc.method == "iter_mut" && mc.args.is_empty() {
+					let (rs, re_) = br(mc.receiver.span());
+					let (ps, pe) = br(fl.pat.span());
+					let iv = format!("vx_i{}", ord);
+					let recv_text = oneline(&self.src[rs..re_]);
+					let pat_text = oneline(&self.src[ps..pe]);
+					self.push(ws, bs, vec![
+						Part::Text(format!("{{ let mut {}: usize = 0;\nwhile {} < ", iv, iv)), Part::Src(rs, re_), Part::Text(".len()\n".to_string()),
+					], "L20");
+					let mut parts = self.clause_parts("invariant_except_break", "invariant", &lc.invariant_except_break, "        ");
+					let mut inv = vec![Clause::Plain(format!("{} <= {}.len()", iv, recv_text))];
+					inv.extend(lc.invariant.iter().cloned());
+					parts.extend(self.clause_parts("invariant", "invariant", &inv, "        "));
+					parts.extend(self.clause_parts("ensures", "invariant", &lc.ensures, "        "));
+					let d = lc.decreases.clone().unwrap_or(format!("{}.len() - {}", recv_text, iv));
+					parts.push(Part::Text(format!("\n        decreases {},\n    ", d)));
+					self.push(bs, bs, parts, "A2");
+					self.push(bs + 1, bs + 1, vec![
+						Part::Text(format!("\nlet mut {} = vf_clone(&", pat_text)), Part::Src(rs, re_),
+						Part::Text(format!("[{}]); {} = {} + 1;\n", iv, iv, iv)),
+					], "L20");
+					let wb = format!("{}.set({} - 1, {});", recv_text, iv, pat_text);
+					self.push(be - 1, be - 1, vec![Part::Text(format!("\n{}\n", wb))], "L20");
+					self.push(we, we, vec![Part::Text(" }".to_string())], "L20");
+					self.push(we, we, vec![Part::Text(";".to_string())], "A2");
+					self.writeback.push(Some(wb));
+					syn::visit::visit_expr_for_loop(self, fl);
+					self.writeback.pop();
+					return;
+				}
 			}
 			let recv = match &*fl.expr {
 				syn::Expr::MethodCall(mc) if mc.method == "iter" && mc.args.is_empty() => br(mc.receiver.span()),
@@ -920,7 +958,7 @@ impl<'ast, 'c> Visit<'ast> for FnVisitor<'c> {
 			}
 			self.push(we, we, vec![Part::Text(" }".to_string())], "L20");
 			self.push(we, we, vec![Part::Text(";".to_string())], "A2");
-			syn::visit::visit_expr_for_loop(self, fl);
+			{ self.writeback.push(None); syn::visit::visit_expr_for_loop(self, fl); self.writeback.pop(); }
 			return;
 		}
 		if let Some(lc) = cfg {
@@ -939,7 +977,13 @@ impl<'ast, 'c> Visit<'ast> for FnVisitor<'c> {
 				self.push(we, we, vec![Part::Text(";".to_string())], "A2");
 			}
 		}
-		syn::visit::visit_expr_for_loop(self, fl);
+		{ self.writeback.push(None); syn::visit::visit_expr_for_loop(self, fl); self.writeback.pop(); }
+	}
+	fn visit_expr_continue(&mut self, c: &'ast syn::ExprContinue) {
+		if let Some(Some(wb)) = self.writeback.last().cloned() {
+			let (cs, ce) = br(c.span());
+			self.push(cs, ce, vec![Part::Text(format!("{{ {} continue }}", wb))], "L20");
+		}
 	}
 	fn visit_expr_while(&mut self, wl: &'ast syn::ExprWhile) {
 		self.loop_ord += 1;
@@ -968,7 +1012,9 @@ impl<'ast, 'c> Visit<'ast> for FnVisitor<'c> {
 				self.push(we, we, vec![Part::Text(";".to_string())], "A2");
 			}
 		}
+		self.writeback.push(None);
 		syn::visit::visit_expr_while(self, wl);
+		self.writeback.pop();
 	}
 	fn visit_expr_loop(&mut self, l: &'ast syn::ExprLoop) {
 		self.loop_ord += 1;
@@ -997,7 +1043,9 @@ impl<'ast, 'c> Visit<'ast> for FnVisitor<'c> {
 				self.push(we, we, vec![Part::Text(";".to_string())], "A2");
 			}
 		}
+		self.writeback.push(None);
 		syn::visit::visit_expr_loop(self, l);
+		self.writeback.pop();
 	}
 	fn visit_expr_try(&mut self, t: &'ast syn::ExprTry) {
 		self.tried.push(br(t.expr.span()));
@@ -1376,6 +1424,7 @@ fn fn_edits(
 			bs.scopes
 		},
 		closure_depth: 0,
+		writeback: vec![],
 	};
 	for a in attrs {
 		v.visit_attribute(a);
